@@ -89,7 +89,7 @@ class Scenario:
         # bystanders that must never be touched
         open(os.path.join(self.home, 'bystander.txt'), 'w').write('home bystander\n')
         open(os.path.join(self.cwd, 'bystander.txt'), 'w').write('cwd bystander\n')
-        if self.prior in ('older', 'identical', 'unrelated', 'older-samesize', 'older-modes'):
+        if self.prior in ('older', 'identical', 'unrelated', 'older-samesize', 'older-modes', 'older-linked'):
             os.makedirs(self.skilldir, exist_ok=True)
         if self.prior == 'older':
             for rel in self.tree:
@@ -124,6 +124,21 @@ class Scenario:
             open(os.path.join(self.skilldir, 'NOTES.local'), 'w').write('mine\n')
             os.makedirs(os.path.join(self.base, 'other-skill'), exist_ok=True)
             open(os.path.join(self.base, 'other-skill', 'SKILL.md'), 'w').write('another skill\n')
+        elif self.prior == 'older-linked':
+            # an older install whose SKILL.md is a symbolic link to a file kept elsewhere (a dotfiles manager): the link
+            # is replaced by the new regular file, the file it pointed to is nobody's business
+            os.makedirs(os.path.join(self.top, 'dotfiles'), exist_ok=True)
+            for rel in self.tree:
+                p = os.path.join(self.skilldir, rel)
+                os.makedirs(os.path.dirname(p), exist_ok=True)
+                if rel == 'SKILL.md':
+                    tgt = os.path.join(self.top, 'dotfiles', 'SKILL.md')
+                    open(tgt, 'w').write('older version of %s kept in dotfiles\n' % rel)
+                    os.chmod(tgt, 0o644)
+                    os.symlink(tgt, p)
+                else:
+                    open(p, 'w').write('older version of %s\n' % rel)
+                    os.chmod(p, 0o644)
         elif self.prior == 'base-symlink':
             # the base directory is a symbolic link to a directory kept elsewhere (dotfiles layouts)
             target = self.top + '.lt'
@@ -157,6 +172,7 @@ def run_strace(cli, sc, inject=None, timeout=60):
     cmd += [cli] + sc.args
     env = dict(os.environ)
     env['HOME'] = sc.home
+    env['XDG_CONFIG_HOME'] = os.path.join(sc.top, 'xdgcfg')   # the documented locations are under $HOME whatever XDG says
     env['TMPDIR'] = os.path.join(sc.top, 'tmp')     # inside the observed tree: a file staged there is seen (and is outside the skill directory)
     os.makedirs(env['TMPDIR'], exist_ok=True)
     prior = fstrace.snapshot(sc.top)
@@ -497,7 +513,7 @@ def main_c16(tier):
             nruns = 0
             meta = {}
             flagsets = ['default', 'user', 'path-rel', 'path-abs', 'path-user', 'path-rel-user']
-            priors = ['absent', 'older', 'older-samesize', 'older-modes', 'unrelated', 'base-is-file', 'base-symlink']
+            priors = ['absent', 'older', 'older-samesize', 'older-modes', 'older-linked', 'unrelated', 'base-is-file', 'base-symlink']
             scs = []
             for agent in sorted(table):
                 for fl in flagsets:
